@@ -3,6 +3,13 @@ against the real Nextline + scenario families + the C15 oracle of harness/life_o
 from . import _life
 
 PROP_FILES = ['Props/C15.v']
-TRUSTED_BASE = _life.TRUSTED_BASE
+TRUSTED_BASE = _life.TRUSTED_BASE + [
+    'translate/imp_skeleton.py (ast): nextline/imp.py + nextline/main.py -> Gen/ImpSkeleton.v, statement terms per method of Imp / Nextline; '
+    'trusted: the reading of the source into the AST of Life/ImpSyntax.v (what counts as tracked: _machine, _lock, _callback, pubsub.close, '
+    '_hook.(a)hook, _imp, _continuous, _started, _closed; everything else in those positions fails closed), the semantics of Life/ImpTie.v '
+    '(async with releases on every exit, try/finally, asynccontextmanager = body at the yield, asyncio.Lock not re-entrant), and the call '
+    'lists of continuous.py (which Nextline methods Continuous.run_and_continue / run_continue_and_wait call)',
+]
 ASSUMPTIONS = _life.ASSUMPTIONS
 correspond, search, replay = _life.make('C15')
+TRANSLATORS = ['imp_skeleton']     # Gen/ImpSkeleton.v is regenerated from nextline/imp.py + main.py on every run (Life/ImpTie.v)
